@@ -81,7 +81,7 @@ def main() -> int:
         soft_t, hard_t = prop.timeouts(case)
         faulthandler.dump_traceback_later(hard_t, exit=True, file=errlog)
         try:
-            with soft_alarm(soft_t):
+            with soft_alarm(soft_t, cpu=bool(getattr(prop, "soft_clock_cpu", False))):
                 prop.check(case, col)
         except CaseTimeout:
             prop.on_timeout(case, col, False)
